@@ -68,6 +68,10 @@ void terminal::set_size(extent size)
     // to an unknown one, it ensures that a precise move occurs the next
     // time the cursor is moved to a position.
     state_.cursor_position_ = {};
+
+    // The same holds for a position saved before the change: a terminal
+    // restores it clamped to its new size, so it is no longer known either.
+    state_.saved_cursor_position_ = {};
 }
 
 // ==========================================================================
